@@ -218,6 +218,32 @@ func c01(c *Ctx) {
 			return ts
 		})
 	}
+	// (a3) google.protobuf.Value in responses and requests: unset, every kind, and an EXPLICIT null are all
+	// different values (for Value, JSON null is a value; for every other field it means "unset")
+	{
+		pkg := "c01.wktvalue"
+		f := &spec.File{Path: "c01/wktvalue.proto", Package: pkg, GoImport: "lab/gen/c01wktvalue", GoName: "c01wktvalue"}
+		f.Messages = []*spec.Message{
+			{Name: "Origin", Fields: []*spec.Field{spec.FM("raw", 1, spec.Value), spec.F("note", 2, spec.String)}},
+			{Name: "SettingReq", Fields: []*spec.Field{spec.F("key", 1, spec.String), spec.FM("wanted", 2, spec.Value)}},
+			{Name: "Setting", Fields: []*spec.Field{spec.FM("value", 1, spec.Value), spec.FM("fallback", 2, spec.Value), spec.FM("origin", 3, "."+pkg+".Origin"), spec.F("name", 4, spec.String), spec.FM("extra", 5, spec.Struct)}},
+		}
+		f.Services = []*spec.Service{{Name: "SettingService", BasePath: spec.S("/settings"), Methods: []*spec.Method{
+			{Name: "PutSetting", In: "." + pkg + ".SettingReq", Out: "." + pkg + ".Setting", HTTP: &spec.HTTP{Path: "/{key}", Verb: 3}},
+			{Name: "FindSetting", In: "." + pkg + ".SettingReq", Out: "." + pkg + ".Setting", HTTP: &spec.HTTP{Path: "/find", Verb: 2}},
+		}}}
+		addPkg(f, func(reg *protoregistry.Files, pt string) []*rpcTarget {
+			var ts []*rpcTarget
+			for _, m := range f.Services[0].Methods {
+				pf := map[string]bool{}
+				if strings.Contains(m.HTTP.Path, "{key}") {
+					pf["key"] = true
+				}
+				ts = append(ts, &rpcTarget{CaseID: "deliver/wkt-value/" + m.Name, Svc: pkg + ".SettingService", Method: m.Name, In: pkg + ".SettingReq", Out: pkg + ".Setting", Reg: reg, Proto: pt, PathFields: pf})
+			}
+			return ts
+		})
+	}
 	// (b) placement x kind
 	for _, g := range corpus.PlacementGroups() {
 		pkg := "c01.p" + g.Label
